@@ -962,11 +962,11 @@ PARTS = [
     Part('random', run_case, strategy=_strategy_random,
          examples={'quick': 1600, 'thorough': 40000},
          floors={'match': 0.4, 'no-match': 0.04, 'A>=2': 0.1, 'several-orbits': 0.05, 'node-colours': 0.08,
-                 'edge-colours': 0.04, 'cache': 0.08}),
+                 'edge-colours': 0.03, 'cache': 0.05}),
     Part('symmetric', run_case, strategy=_strategy_symmetric,
          examples={'quick': 1600, 'thorough': 32000},
          floors={'match': 0.4, 'no-match': 0.05, 'A>=12': 0.15, 'A>=100': 0.04, 'several-orbits': 0.04,
-                 'node-colours': 0.1, 'edge-colours': 0.08, 'cache': 0.08}),
+                 'node-colours': 0.1, 'edge-colours': 0.08, 'cache': 0.05, 'more-hosts': 0.8}),
     Part('lcs', run_case, strategy=_strategy_lcs,
          examples={'quick': 1200, 'thorough': 30000},
          floors={'lcs-shrunk': 0.4, 'lcs-shrunk>=2': 0.15, 'lcs-shrunk-A>=2': 0.25, 'lcs-reduced': 0.3, 'lcs-full': 0.08,
